@@ -4,6 +4,7 @@ import Aqv.Model.Trie
 import Aqv.Model.TrieProof
 import Aqv.Model.TrieLoad
 import Std.Data.HashMap
+import Aqv.Model.TrieGc
 open Aqv Aqv.Proto Aqv.Trie Aqv.Rlp
 
 /-! Model driver for C10. One case line = one whole history (or one codec / decode / verify probe).
@@ -247,6 +248,88 @@ def stepOp (secure : Bool) (s : St) (op : String) : St :=
       s.emit (renderVRes r) (fun g => g == "err" || g == want) "foreign-proof-verifies-to-wrong-value"
   | _ => s
 
+/-! ## G cases: the reference-counted node store (Model.TrieGc) replayed against trie.Database
+
+  G <op>|<op>|…   v:<base|->:<k=v;k=v;…>   new version: open the trie of version <base> (or the empty trie), apply the
+                                            mutations (v = `-` deletes), Commit, Reference(root, {})      -> root
+                  f:<idx>                   Dereference(root of version idx, {})                          -> (nothing)
+                  k                         the set of cached node hashes                                  -> <count>:<digest>
+-/
+
+/-- post-order list of (hash, hash children) of the nodes `Commit` stores (children before parents, as the hasher). -/
+def gcPass (root : Bool) : PNode → Item × List Bytes × List (Bytes × List Bytes)
+  | .nil => (.str [], [], [])
+  | .value v => (.str v, [], [])
+  | .hash h => (.str h, [h], [])
+  | .short k c =>
+    let (rc, kc, es) := gcPass false c
+    let it : Item := .list [.str (hexToCompact k), rc]
+    let e := enc it
+    if root || decide (32 ≤ e.length) then (.str (H e), [H e], es ++ [(H e, kc)]) else (it, kc, es)
+  | .full cs =>
+    let parts := (List.finRange 17).map fun i => gcPass false (cs i)
+    let it : Item := .list (parts.map (·.1))
+    let ks := parts.flatMap (·.2.1)
+    let es := parts.flatMap (·.2.2)
+    let e := enc it
+    if root || decide (32 ≤ e.length) then (.str (H e), [H e], es ++ [(H e, ks)]) else (it, ks, es)
+
+def bytesLt : Bytes → Bytes → Bool
+  | [], [] => false
+  | [], _ :: _ => true
+  | _ :: _, [] => false
+  | a :: as, b :: bs => if a < b then true else if b < a then false else bytesLt as bs
+
+def insertSorted (x : Bytes) : List Bytes → List Bytes
+  | [] => [x]
+  | y :: ys => if bytesLt x y then x :: y :: ys else y :: insertSorted x ys
+
+def nodesDigest (ns : List Bytes) : String :=
+  let sorted := ns.foldl (fun acc x => insertSorted x acc) []
+  toString ns.length ++ ":" ++ hexOfBytes ((H (sorted.flatMap id)).take 8)
+
+structure GSt where
+  store : Gc.Store Bytes := Gc.Store.empty
+  versions : Array (PNode × Bytes) := #[]
+  outs : List String := []
+  bad : String := ""
+
+def noDb : Bytes → Option Bytes := fun _ => none
+
+def applyMut (x : PNode) (m : String) : Option PNode :=
+  match m.splitOn "=" with
+  | [k, v] =>
+    let key := keybytesToHex (hexB k); let vb := hexB v
+    let r := if vb.length != 0 then xinsert noDb (xfuel key) x key vb else xdelete noDb (xfuel key) x key
+    match r with
+    | .ok (_, n) => some n
+    | _ => none
+  | _ => some x
+
+def gStep (g : GSt) (op : String) : GSt :=
+  if g.bad != "" then g else
+  match op.splitOn ":" with
+  | ["v", base, muts] =>
+    let x0 : PNode := if base == "-" then .nil else (g.versions.getD base.toNat! (.nil, [])).1
+    let ms := if muts == "" then [] else muts.splitOn ";"
+    match ms.foldl (fun (o : Option PNode) m => o.bind (applyMut · m)) (some x0) with
+    | none => { g with bad := "model-failure:mutation" }
+    | some x =>
+      let root := hashRootX H x
+      let (_, _, es) := gcPass true x
+      let st := es.foldl (fun s e => Gc.storeNode s e.1 e.2) g.store
+      let st := match x with
+        | .nil => st
+        | _ => Gc.pin st root
+      { g with store := st, versions := g.versions.push (x, root), outs := hexOfBytes root :: g.outs }
+  | ["f", idx] =>
+    let root := (g.versions.getD idx.toNat! (.nil, [])).2
+    match Gc.unpin 100000 g.store root with
+    | some st => { g with store := st }
+    | none => { g with bad := "model-failure:deref-fuel" }
+  | ["k"] => { g with outs := nodesDigest g.store.nodes :: g.outs }
+  | _ => g
+
 def renderNib (n : Nib) : Char := hexDigit (n.val % 16)
 
 partial def renderP : PNode → String
@@ -284,6 +367,17 @@ def handle (l : String) : String :=
       let consistent := hexOfBytes (hashRootX H s.x) == hexOfBytes (specRoot s.m)
       if !consistent then implOut ++ "\tspec-reject:model-root-differs-from-spec-root"
       else verdict implOut go (s.specOk && s.goLeft.isEmpty) s.why
+  | ["G", ops] =>
+    let g := (ops.splitOn "|").foldl gStep {}
+    if g.bad != "" then verdict g.bad go false "gc-model-failed"
+    else
+      -- Spec judgement of a differing Go output: the ROOTS must be the model's; which unreferenced nodes the store
+      -- still caches is not prescribed by the property (the harness judges reopening of pinned roots directly)
+      let mo := g.outs.reverse
+      let gosOuts := go.splitOn "|"
+      let rootsAgree := mo.length == gosOuts.length &&
+        (mo.zip gosOuts).all fun (a, b) => if a.contains ':' then b.contains ':' else a == b
+      verdict ("|".intercalate mo) go rootsAgree "gc-history-root-differs"
   | ["D", items] =>
     let its := if items == "-" then [] else (items.splitOn ",").map hexB
     let keyed := (List.range its.length).zip its |>.map fun (i, v) => (enc (.str (beBytes i)), v)
